@@ -29,9 +29,10 @@ AllJumps == {"return", "break", "continue"}
 ACtl == [simple |-> {Eff, IncA, Y(Lit0), Y(VarA)},
          inits |-> {None, Y(Lit0)}, posts |-> {None, PAssign, Y(Lit0)}, conds |-> {None, T0},
          ifinits |-> {None}, kinds |-> {"if", "ifelse", "switch", "block", "for"}, jumps |-> AllJumps \cup {"retx"}, ranges |-> {}]
-AScope == [simple |-> {Eff, DefA, IncA, [k |-> "callf"], Y(VarA)},
-           inits |-> {None, DefA}, posts |-> {None, IncA, Y(VarA)}, conds |-> {T0},
-           ifinits |-> {None, DefA}, kinds |-> {"if", "ifelse", "switch", "block", "for"}, jumps |-> {"continue"}, ranges |-> {}]
+Def2 == [k |-> "def2"]
+AScope == [simple |-> {Eff, DefA, Def2, IncA, [k |-> "callf"], Y(VarA)},
+           inits |-> {None, DefA, Def2}, posts |-> {None, IncA, Y(VarA)}, conds |-> {T0},
+           ifinits |-> {None, DefA, Def2}, kinds |-> {"if", "ifelse", "switch", "block", "for"}, jumps |-> {"continue"}, ranges |-> {}]
 AYf == [simple |-> {Eff, IncA, Y(VarA)} \cup YFs,
         inits |-> {None}, posts |-> {None} \cup YFs, conds |-> {T0},
         ifinits |-> {None}, kinds |-> {"if", "switch", "for"}, jumps |-> {"break", "continue"}, ranges |-> {}]
@@ -75,6 +76,7 @@ KVForms == {<<"def", "def">>, <<"def", "none">>, <<"blank", "def">>, <<"none", "
 KForms == {<<"def", "none">>, <<"none", "none">>, <<"asg", "none">>}
 Ranges == {RangeHdr(kd, "var", f[1], f[2]) : kd \in {"slice", "array", "string"}, f \in KVForms}
      \cup {RangeHdr(kd, "var", f[1], f[2]) : kd \in {"int", "chan"}, f \in KForms}
+     \cup {RangeHdr(kd, "var", "asg", "idx") : kd \in {"slice", "array"}}
      \cup {RangeHdr(kd, "call", "def", "def") : kd \in {"slice", "array", "string"}}
      \cup {RangeHdr(kd, "call", "def", "none") : kd \in {"int", "chan"}}
 Mut(op, j) == [k |-> "mut", op |-> op, j |-> j]
@@ -89,7 +91,7 @@ A == CASE Family = "range" -> ARange [] Family = "rangex" -> ARangeX [] Family =
 \* Go scoping: `a := ...` at most once per block and never in the function's top block
 \* (a is a parameter there: "no new variables on left side of :=")
 RECURSIVE ScopeOK(_, _)
-NDef(b) == Cardinality({j \in 1..Len(b) : b[j].k = "def"})
+NDef(b) == Cardinality({j \in 1..Len(b) : b[j].k \in {"def", "def2"}})
 SubOK(s) == CASE s.k = "if"     -> ScopeOK(s.a, 1) /\ ScopeOK(s.b, 1)
               [] s.k = "switch" -> \A j \in 1..Len(s.cases) : ScopeOK(s.cases[j].body, 1)
               [] s.k \in {"block", "for"} -> ScopeOK(s.body, 1)
@@ -125,7 +127,7 @@ RECURSIVE AddObsB(_)
 AddObsS(s) == IF s.k = "range" THEN [s EXCEPT !.body = <<[k |-> "effkv", id |-> 0]>> \o AddObsB(@)]
               ELSE IF s.k = "if" THEN [s EXCEPT !.a = AddObsB(@), !.b = AddObsB(@)] ELSE s
 AddObsB(b) == [j \in 1..Len(b) |-> AddObsS(b[j])]
-Finish(raw) == IF IsRangeFam THEN LET tail == <<[k |-> "effkk", id |-> 0], Y(Lit0)>> IN
+Finish(raw) == IF IsRangeFam THEN LET tail == <<[k |-> "effkk", id |-> 0], [k |-> "effw", id |-> 0], Y(Lit0)>> IN
                                   {AddObsB(raw) \o tail, AddObsB(CloWrapB(raw)) \o tail}
                ELSE {raw}
 
